@@ -226,3 +226,56 @@ PROPS["C06"] = dict(
     outside=["end-to-end fri_commit+fri_verify completeness over all step lists of 2..15 layers against a coefficient-space prover (concrete-run technique); small-shape completeness is decided under C07 (C07S obligations) when present",
              "Merkle completeness: C04/C05"],
 )
+
+PROPS["C07"] = dict(
+    title="FRI rejects inconsistent layers and functions above the degree bound",
+    level="model_checking",
+    technique="symbolic execution of the real fri_verify / fri_verify_layers / compute_next_layer / table_decommit (z3, uninterpreted collision-free hashes) on small enumerated shapes + z3 polynomial identity for the last-layer perturbation; native replay",
+    obligations=[e2("C07"), e2("C07S")],
+    assumptions=E2S_ASSUMPTIONS,
+    outside=["'a function of degree >= bound is rejected except with small probability': a probabilistic statement over the query randomness - no solver here can quantify over provers",
+             "queried input values / evaluation points: they are recomputed or absorbed; that a changed challenge makes a later check fail is probabilistic",
+             "more than 3 layers / 2 queries"],
+)
+PROPS["C18"] = dict(
+    title="Malformed proofs are reported as errors, not crashes",
+    level="model_checking",
+    technique="symbolic execution of each entry point with panics as outcomes (index/slice/unwrap/assert/usize arithmetic/division by zero), vector lengths enumerated 0..=3, contents symbolic; z3 decides feasibility of every panic path under 'config accepted by the real validate'; native replay under catch_unwind",
+    obligations=[e2("C18")],
+    assumptions=E2S_ASSUMPTIONS,
+    outside=["StarkProof::verify::<RealLayout> end to end with the generated evaluators (their index preconditions are C01's index-set obligations)", "allocation failure, stack depth",
+             "vector lengths above 3"],
+)
+
+C11_MAIN = [o for o in PROPS["C11"]["obligations"] if o["id"] == "C11.exact.3steps_2inner"][0]
+def _ref(o, pid):
+    d = dict(o)
+    d["id"] = pid + ".via." + o["id"]
+    return d
+PROPS["C01"] = dict(
+    title="No proof is accepted for a trace that violates the AIR",
+    level="model_checking",
+    technique="structural necessary conditions decided by solver: generated evaluators' index sets (z3), OODS coupling and no-ignored-decommitment by symbolic execution of the real stark_commit/stark_verify/fri_verify with abstract layout (z3, UF hashes), configuration exactness by Kani/CBMC",
+    level_text="Partial by nature: the probabilistic soundness theorem itself (adaptive prover, FRI proximity, DEEP-ALI) cannot be quantified by any solver here. What IS decided, within bounds, are the structural necessary conditions the statement spells out: the composition values checked are the ones opened (OODS length and index coupling), FRI/domain parameters are tied to the trace (C11 exactness), and no decommitment result is ignored.",
+    obligations=[e2("C01"), e2("C01S"), e2("C07S"), _ref(C11_MAIN, "C01")],
+    assumptions=E2S_ASSUMPTIONS,
+    outside=["the soundness theorem itself (probability over verifier randomness, adaptive prover)", "that each layout's constraint system is the Cairo AIR", "shapes beyond the stated bounds"],
+)
+PROPS["C02"] = dict(
+    title="Accepted proofs are tamper-evident at every position",
+    level="model_checking",
+    technique="per position class: shape-bound positions by symbolic execution with one element deleted (z3), Merkle-bound positions by the binding obligations of C04/C05/C07, transcript-bound positions by C08/C13 injectivity, configuration numbers by C11 exactness (Kani/CBMC)",
+    obligations=[e2("C02S"), e2("C07S"), e2("C13"), _ref(C11_MAIN, "C02")],
+    assumptions=E2S_ASSUMPTIONS,
+    outside=["that a changed Fiat-Shamir challenge makes a later check fail (probabilistic)", "Merkle-bound positions are decided under C04/C05 (bind obligations) and are not re-run here",
+             "StarkProof::verify on a real layout end to end"],
+)
+PROPS["C17"] = dict(
+    title="Verification work is bounded by the size of the proof",
+    level="model_checking",
+    technique="loop-site classification by symbolic execution; value-bounded loops decided by z3 under 'config accepted by the real validate'; Kani unwinding assertions + native hang detection for generate_queries",
+    obligations=[e2("C17"),
+                 e1("C17.generate_queries.terminates", "c10_generate_3_small", "3 queries, domain 2^1..2^3, transcript state symbolic", "generate_queries runs its loop exactly n times (unwinding assertions; a native run that does not terminate is a violation)", timeout=1200, witness=False, mem=20)],
+    assumptions=E2S_ASSUMPTIONS,
+    outside=["wall-clock time and peak memory of a verifier process (a measurement, not a solver question)", "library internals (pow, hash functions): O(log) / fixed by inspection"],
+)
